@@ -64,6 +64,10 @@ class Meta(dict):
         for key, value in other.items():
             self[key] = value
 
+    def __ior__(self, other):
+        self.update(other)
+        return self
+
     def setdefault(self, key, value=None):
         if key not in self:
             self[key] = value
